@@ -11,69 +11,26 @@
 #include "c18_ref_ws.hpp"
 #include "pbt.hpp"
 
-#include <iora/network/websocket_client.hpp>
-#include <iora/network/websocket_frame.hpp>
-#include <iora/network/websocket_server.hpp>
+#include "c18_inproc.hpp"
 
+#include "c18_rawpeer.hpp"
+
+#include <algorithm>
+#include <atomic>
 #include <cstring>
 #include <memory>
+#include <mutex>
+#include <thread>
 
-namespace ws = iora::network;
-using c18::Msg;
 using c18::Stream;
-
-// ---------------------------------------------------------------------------------------
-// hook H3 (hooks/C18-ws-client-probe.diff): friend probe for the client's private data path
-// ---------------------------------------------------------------------------------------
+using namespace c18in;
 #ifdef JOEGEN_IORA_VERIF_WS_CLIENT_PROBE
-namespace iora
-{
-namespace verif
-{
-struct WebSocketClientProbe
-{
-  /// put a never-connected client into the state it has right after a successful upgrade
-  static void prime(ws::WebSocketClient &cl)
-  {
-    cl._upgradeComplete.store(true);
-    cl._state.store(ws::WebSocketState::CONNECTED);
-  }
-  static void feed(ws::WebSocketClient &cl, const std::uint8_t *p, std::size_t n) { cl.handleData(0, p, n); }
-  static std::size_t buffered(ws::WebSocketClient &cl)
-  {
-    std::lock_guard<std::mutex> g(cl._dataMutex);
-    return cl._buffer.size() + cl._fragmentBuffer.size();
-  }
-};
-} // namespace verif
-} // namespace iora
 using iora::verif::WebSocketClientProbe;
 #endif
 
+
 namespace
 {
-
-// exact-size heap copy so that ASan sees any read past the end
-struct ExactBuf
-{
-  std::unique_ptr<std::uint8_t[]> p;
-  std::size_t n;
-  explicit ExactBuf(std::string_view s) : p(new std::uint8_t[s.size() ? s.size() : 1]), n(s.size())
-  {
-    if (n) std::memcpy(p.get(), s.data(), n);
-  }
-  iora::core::BufferView view() const { return iora::core::BufferView(p.get(), n); }
-};
-
-void quietLogs()
-{
-  static bool done = false;
-  if (!done)
-  {
-    iora::core::Logger::setLevel(iora::core::Logger::Level::Fatal);
-    done = true;
-  }
-}
 
 std::string showMsg(const Msg &m)
 {
@@ -94,150 +51,6 @@ std::string showCuts(const std::vector<std::size_t> &cuts)
   if (cuts.size() > 12) o += ",...(" + std::to_string(cuts.size()) + ")";
   return o + "}";
 }
-
-/// what an endpoint did with one segmented feed of a stream
-struct Outcome
-{
-  std::vector<Msg> msgs;
-  int closeCallbacks = 0;
-  std::uint16_t closeCode = 0;
-  std::string closeReason;
-  int errors = 0;
-  int closeSessionCalls = 0;
-  bool active = true; // endpoint still willing to send data afterwards
-  bool threw = false;
-  std::string what;
-};
-
-// ------------------------------------------------------------------ in-process server
-class ProbeServer : public ws::WebSocketServer
-{
-public:
-  ProbeServer() : ws::WebSocketServer("127.0.0.1", 1)
-  {
-    setOnTextMessage([this](ws::SessionId, const std::string &t) { if (out) out->msgs.push_back(Msg{true, t}); });
-    setOnBinaryMessage([this](ws::SessionId, const std::vector<std::uint8_t> &b)
-                       { if (out) out->msgs.push_back(Msg{false, std::string(b.begin(), b.end())}); });
-    setOnClose([this](ws::SessionId, std::uint16_t code, const std::string &reason)
-               {
-                 if (!out) return;
-                 ++out->closeCallbacks;
-                 out->closeCode = code;
-                 out->closeReason = reason;
-               });
-    setOnError([this](ws::SessionId, const std::string &) { if (out) ++out->errors; });
-  }
-
-  /// (re)create the WebSocket session state for `sid` through the real upgrade hook
-  bool open(ws::SessionId sid)
-  {
-    Request req;
-    req.method = iora::network::HttpMethod::GET;
-    req.path = "/ws";
-    req.headers["Upgrade"] = "websocket";
-    req.headers["Connection"] = "Upgrade";
-    req.headers["Sec-WebSocket-Key"] = "dGhlIHNhbXBsZSBub25jZQ==";
-    req.headers["Sec-WebSocket-Version"] = "13";
-    req.sid = sid;
-    Response res;
-    bool handled = onUpgradeRequest(sid, req, res);
-    return handled && res.status == 101 && res.headers["Sec-WebSocket-Accept"] == "s3pPLMBiTxaQ9kYGzzhZRbK+xOo=";
-  }
-  void feed(ws::SessionId sid, const std::uint8_t *p, std::size_t n) { onUpgradedData(sid, p, n); }
-  void closeSession(ws::SessionId) override { if (out) ++out->closeSessionCalls; }
-
-  Outcome *out = nullptr;
-};
-
-ProbeServer &probeServer()
-{
-  static ProbeServer *s = [] { quietLogs(); return new ProbeServer; }();
-  return *s;
-}
-
-constexpr ws::SessionId kSid = 4242;
-
-/// feed `wire` cut at `cuts` to a fresh server session
-Outcome runServer(const std::string &wire, const std::vector<std::size_t> &cuts, std::size_t maxFrame = 16u << 20)
-{
-  Outcome o;
-  ProbeServer &srv = probeServer();
-  srv.setMaxFrameSize(maxFrame);
-  srv.out = &o;
-  if (!srv.open(kSid))
-  {
-    o.threw = true;
-    o.what = "upgrade of the in-process session failed";
-    srv.out = nullptr;
-    return o;
-  }
-  try
-  {
-    std::size_t from = 0;
-    for (std::size_t k = 0; k <= cuts.size(); ++k)
-    {
-      std::size_t to = k < cuts.size() ? cuts[k] : wire.size();
-      ExactBuf seg(std::string_view(wire).substr(from, to - from));
-      srv.feed(kSid, seg.p.get(), seg.n);
-      from = to;
-    }
-  }
-  catch (const std::exception &e)
-  {
-    o.threw = true;
-    o.what = std::string("exception left onUpgradedData: ") + e.what();
-  }
-  catch (...)
-  {
-    o.threw = true;
-    o.what = "unknown exception left onUpgradedData";
-  }
-  o.active = srv.isSessionActive(kSid);
-  srv.out = nullptr;
-  return o;
-}
-
-#ifdef JOEGEN_IORA_VERIF_WS_CLIENT_PROBE
-Outcome runClient(const std::string &wire, const std::vector<std::size_t> &cuts)
-{
-  quietLogs();
-  Outcome o;
-  auto cl = ws::WebSocketClient::create();
-  cl->setOnTextMessage([&o](const std::string &t) { o.msgs.push_back(Msg{true, t}); });
-  cl->setOnBinaryMessage([&o](const std::vector<std::uint8_t> &b) { o.msgs.push_back(Msg{false, std::string(b.begin(), b.end())}); });
-  cl->setOnClose([&o](std::uint16_t code, const std::string &reason)
-                 {
-                   ++o.closeCallbacks;
-                   o.closeCode = code;
-                   o.closeReason = reason;
-                 });
-  cl->setOnError([&o](const std::string &) { ++o.errors; });
-  WebSocketClientProbe::prime(*cl);
-  try
-  {
-    std::size_t from = 0;
-    for (std::size_t k = 0; k <= cuts.size(); ++k)
-    {
-      std::size_t to = k < cuts.size() ? cuts[k] : wire.size();
-      ExactBuf seg(std::string_view(wire).substr(from, to - from));
-      WebSocketClientProbe::feed(*cl, seg.p.get(), seg.n);
-      from = to;
-    }
-  }
-  catch (const std::exception &e)
-  {
-    o.threw = true;
-    o.what = std::string("exception left handleData: ") + e.what();
-  }
-  catch (...)
-  {
-    o.threw = true;
-    o.what = "unknown exception left handleData";
-  }
-  o.active = cl->getState() == ws::WebSocketState::CONNECTED;
-  return o;
-}
-#endif
 
 /// the segmentation-independent delivery oracle. `side` is "server" or "client".
 /// Returns false (and reports) on the first violation.
@@ -266,7 +79,12 @@ bool judge(pbt::Case &c, const std::string &side, const Stream &s, const Outcome
     c.fail(P + shape, "delivered " + showMsgs(o.msgs) + " expected " + showMsgs(s.expect) + " [" + seg + "]");
     return false;
   }
-  if (s.hasClose)
+  if (s.hasInvalidText)
+  {
+    // the endpoint fails the connection itself (1007); whether it still reports the peer's
+    // later close frame to the application is not part of the property
+  }
+  else if (s.hasClose)
   {
     if (o.closeCallbacks != 1)
     {
@@ -483,7 +301,7 @@ PBT_PROPERTY(frame_roundtrip)
                                                     << " masked " << back->masked);
     return;
   }
-  if (back->payload.size() != rf.payload.size() || std::memcmp(back->payload.data(), rf.payload.data(), rf.payload.size()) != 0)
+  if (std::string(back->payload.begin(), back->payload.end()) != rf.payload)
   {
     std::size_t at = 0;
     while (at < back->payload.size() && at < rf.payload.size() && static_cast<char>(back->payload[at]) == rf.payload[at]) ++at;
@@ -538,6 +356,1920 @@ PBT_PROPERTY(client_segments)
 #else
   c.label("hook H3 (hooks/C18-ws-client-probe.diff) not applied: client data path not reachable in-process");
 #endif
+}
+
+
+// =======================================================================================
+// Loopback properties: the real I/O path (transport -> HttpServer upgrade routing ->
+// onUpgradedData / client onData -> handleData) and a capture of every byte the endpoint
+// puts on the wire, read by a raw socket peer and decoded with the reference decoder.
+// =======================================================================================
+namespace
+{
+
+struct SharedLog
+{
+  std::mutex m;
+  ws::SessionId sid = 0;
+  int connects = 0;
+  Outcome o;
+};
+
+class LoopServer : public ws::WebSocketServer
+{
+public:
+  explicit LoopServer(int port) : ws::WebSocketServer("127.0.0.1", port)
+  {
+    setOnConnect([this](ws::SessionId sid, const std::string &)
+                 {
+                   std::lock_guard<std::mutex> g(log.m);
+                   log.sid = sid;
+                   ++log.connects;
+                   log.o = Outcome{};
+                 });
+    setOnTextMessage([this](ws::SessionId sid, const std::string &t)
+                     {
+                       std::lock_guard<std::mutex> g(log.m);
+                       if (sid == log.sid) log.o.msgs.push_back(Msg{true, t});
+                     });
+    setOnBinaryMessage([this](ws::SessionId sid, const std::vector<std::uint8_t> &b)
+                       {
+                         std::lock_guard<std::mutex> g(log.m);
+                         if (sid == log.sid) log.o.msgs.push_back(Msg{false, std::string(b.begin(), b.end())});
+                       });
+    setOnClose([this](ws::SessionId sid, std::uint16_t code, const std::string &reason)
+               {
+                 std::lock_guard<std::mutex> g(log.m);
+                 if (sid != log.sid) return;
+                 ++log.o.closeCallbacks;
+                 log.o.closeCode = code;
+                 log.o.closeReason = reason;
+               });
+    setOnError([this](ws::SessionId sid, const std::string &)
+               {
+                 std::lock_guard<std::mutex> g(log.m);
+                 if (sid == log.sid) ++log.o.errors;
+               });
+  }
+  SharedLog log;
+  int port = 0;
+};
+
+/// one started server per harness process (starting/stopping costs > 50 ms)
+LoopServer *loopServer(std::string &why)
+{
+  static LoopServer *srv = nullptr;
+  if (srv) return srv;
+  quietLogs();
+  for (int attempt = 0; attempt < 40 && !srv; ++attempt)
+  {
+    int port = c18net::probeFreePort();
+    if (port <= 0) continue;
+    auto *cand = new LoopServer(port);
+    try
+    {
+      cand->start();
+      cand->port = port;
+      srv = cand;
+    }
+    catch (const std::exception &e)
+    {
+      why = e.what();
+      delete cand;
+    }
+  }
+  return srv;
+}
+
+std::string randomKey(pbt::Src &src)
+{
+  unsigned char k[16];
+  for (auto &b : k) b = static_cast<unsigned char>(src.range(0, 255));
+  return refws::base64(k, sizeof k);
+}
+
+refws::Frame maskedFrame(pbt::Src &src, std::uint8_t opcode, const std::string &payload, bool masked)
+{
+  refws::Frame f;
+  f.fin = true;
+  f.opcode = opcode;
+  f.payload = payload;
+  c18::drawKey(src, f, masked);
+  return f;
+}
+
+/// application payload of a chosen length class; unique per index so that wire frames can be
+/// matched against the sends
+std::string appPayload(std::size_t idx, std::size_t lenClass, bool text)
+{
+  static const std::size_t lens[] = {0, 3, 17, 125, 126, 127, 300, 65535, 65536, 70001};
+  std::size_t n = lens[lenClass % (sizeof lens / sizeof lens[0])];
+  std::string o = (text ? "a" : std::string("\xff", 1)) + std::to_string(idx) + ":";
+  if (o.size() > n) return n == 0 ? std::string() : o; // tiny classes: keep the tag
+  while (o.size() < n) o += static_cast<char>('A' + (o.size() * 7 + idx) % 26);
+  return o;
+}
+
+struct AppSend
+{
+  char kind;           // 't' text, 'b' binary, 'p' ping, 'c' close
+  std::string payload; // for 'c': 2-byte code + reason
+  bool certain;        // issued while the session was certainly active (nothing closing yet)
+};
+
+/// messages reassembled from the data frames on the wire
+struct WireMsgs
+{
+  std::vector<Msg> msgs;
+  bool ok = true;
+  std::string why;
+};
+
+WireMsgs reassembleWire(const std::vector<refws::Frame> &frames)
+{
+  WireMsgs w;
+  bool open = false;
+  Msg cur;
+  for (auto &f : frames)
+  {
+    if (f.opcode == refws::OpText || f.opcode == refws::OpBinary)
+    {
+      if (open)
+      {
+        w.ok = false;
+        w.why = "new data frame while a fragmented message is open";
+        return w;
+      }
+      cur = Msg{f.opcode == refws::OpText, f.payload};
+      open = !f.fin;
+      if (f.fin) w.msgs.push_back(cur);
+    }
+    else if (f.opcode == refws::OpCont)
+    {
+      if (!open)
+      {
+        w.ok = false;
+        w.why = "continuation frame without an open message";
+        return w;
+      }
+      cur.payload += f.payload;
+      if (f.fin)
+      {
+        w.msgs.push_back(cur);
+        open = false;
+      }
+    }
+  }
+  return w;
+}
+
+template <class T> bool isPrefix(const std::vector<T> &a, const std::vector<T> &b)
+{
+  return a.size() <= b.size() && std::equal(a.begin(), a.end(), b.begin());
+}
+template <class T> bool isSubsequence(const std::vector<T> &a, std::size_t from, const std::vector<T> &b, std::size_t bfrom)
+{
+  std::size_t j = bfrom;
+  for (std::size_t i = from; i < a.size(); ++i)
+  {
+    while (j < b.size() && !(b[j] == a[i])) ++j;
+    if (j == b.size()) return false;
+    ++j;
+  }
+  return true;
+}
+
+/// The wire oracle shared by both endpoints. `wire` = every byte the endpoint sent after the
+/// opening handshake, `pingsRequired` must be answered in order, `pingsOptional` (sent after the
+/// endpoint had a reason to close) may be, `sends` = application sends in program order.
+bool judgeWire(pbt::Case &c, const std::string &side, const std::string &wire, bool eofSeen, const std::vector<std::string> &pingsRequired,
+               const std::vector<std::string> &pingsOptional, const std::vector<AppSend> &sends, const std::string &sentinel, bool expectMasked)
+{
+  const std::string P = "C18/" + side + "/";
+  c18net::WireFrames w = c18net::decodeAll(wire);
+  if (std::getenv("C18_DEBUG"))
+  {
+    std::fprintf(stderr, "[c18] wire from %s (%zu bytes, eof=%d): %s\n", side.c_str(), wire.size(), int(eofSeen), pbt::hex(wire, 400).c_str());
+    for (auto &f : w.frames) std::fprintf(stderr, "[c18]   %s fin=%d masked=%d len=%zu %s\n", refws::opName(f.opcode), int(f.fin), int(f.masked), f.payload.size(), pbt::hex(f.payload, 32).c_str());
+  }
+  if (!w.ok)
+  {
+    c.fail(P + "wire-malformed", "bytes sent by the " + side + " are not a sequence of valid frames: " + w.why);
+    return false;
+  }
+  if (w.tail)
+  {
+    if (!eofSeen)
+    {
+      c.fail(P + "wire-malformed", pbt::Fmt() << w.tail << " trailing bytes do not form a complete frame although the connection is idle");
+      return false;
+    }
+    c.label("last frame truncated by the transport close (not judged here)");
+  }
+  // (1) no data frame behind the endpoint's own close frame
+  bool closeSeen = false;
+  std::size_t idx = 0;
+  for (auto &f : w.frames)
+  {
+    if (closeSeen && (f.opcode == refws::OpText || f.opcode == refws::OpBinary || f.opcode == refws::OpCont))
+    {
+      c.fail(P + "data-after-close", pbt::Fmt() << "frame #" << idx << " on the wire is a " << refws::opName(f.opcode) << " frame (" << f.payload.size()
+                                                << " bytes: " << pbt::show(f.payload, 24) << ") sent after the endpoint's close frame");
+      return false;
+    }
+    if (f.opcode == refws::OpClose) closeSeen = true;
+    ++idx;
+  }
+  if (closeSeen) c.label("endpoint sent a close frame");
+  // (2) pongs answer the pings: identical payload, same order, none invented
+  std::vector<std::string> pongs;
+  bool sentinelSeen = false;
+  for (auto &f : w.frames)
+    if (f.opcode == refws::OpPong)
+    {
+      if (!sentinel.empty() && f.payload == sentinel) sentinelSeen = true;
+      else pongs.push_back(f.payload);
+    }
+  (void)sentinelSeen;
+  if (!isPrefix(pingsRequired, pongs))
+  {
+    std::size_t k = 0;
+    while (k < pongs.size() && k < pingsRequired.size() && pongs[k] == pingsRequired[k]) ++k;
+    c.fail(P + "pong-mismatch", pbt::Fmt() << pingsRequired.size() << " pings sent, " << pongs.size() << " pongs received; first difference at #" << k << ": ping "
+                                           << (k < pingsRequired.size() ? pbt::hex(pingsRequired[k], 20) : std::string("<none>")) << " pong "
+                                           << (k < pongs.size() ? pbt::hex(pongs[k], 20) : std::string("<none>")));
+    return false;
+  }
+  if (!isSubsequence(pongs, pingsRequired.size(), pingsOptional, 0))
+  {
+    c.fail(P + "pong-mismatch", "a pong on the wire does not answer any ping that was sent (or is out of order)");
+    return false;
+  }
+  // (3) application sends: what was certainly sent while the session was active is on the wire,
+  //     intact and in order; nothing else is
+  WireMsgs wm = reassembleWire(w.frames);
+  if (!wm.ok)
+  {
+    c.fail(P + "wire-malformed", wm.why);
+    return false;
+  }
+  std::vector<Msg> certain, all;
+  bool stillCertain = true;
+  for (auto &a : sends)
+  {
+    if (a.kind != 't' && a.kind != 'b') continue;
+    Msg m{a.kind == 't', a.payload};
+    if (!a.certain) stillCertain = false;
+    if (stillCertain) certain.push_back(m);
+    all.push_back(m);
+  }
+  if (!isPrefix(certain, wm.msgs) || !isSubsequence(wm.msgs, certain.size(), all, certain.size()))
+  {
+    c.fail(P + "sent-message-mismatch", "messages on the wire " + showMsgs(wm.msgs) + " vs application sends " + showMsgs(all) + " (the first " +
+                                          std::to_string(certain.size()) + " were issued while the session was active)");
+    return false;
+  }
+  if (expectMasked)
+  {
+    for (auto &f : w.frames)
+      if (!f.masked)
+      {
+        c.label("client sent an unmasked frame");
+        break;
+      }
+  }
+  else
+    for (auto &f : w.frames)
+      if (f.masked)
+      {
+        c.label("server sent a masked frame");
+        break;
+      }
+  for (auto &d : w.meta)
+    if (d.nonMinimalLength)
+    {
+      c.fail(P + "wire-nonminimal-length", "a frame on the wire does not use the minimal length encoding");
+      return false;
+    }
+  return true;
+}
+
+/// plan of one loopback case: how the inbound stream is cut and where application sends happen
+struct LoopPlan
+{
+  std::vector<std::size_t> cuts;
+  struct Op
+  {
+    std::size_t beforeSegment; // executed before segment #n is written (n == segments: at the end)
+    char kind;
+    std::size_t lenClass;
+  };
+  std::vector<Op> ops;
+  bool hasAppClose = false;
+};
+
+LoopPlan drawPlan(pbt::Src &src, const Stream &s, bool allowAppClose)
+{
+  LoopPlan p;
+  switch (src.weighted({2, 4, 4}))
+  {
+  case 0: break; // whole
+  case 1:
+  {
+    // one cut, preferably inside a header
+    if (s.wire.size() >= 2)
+    {
+      std::size_t cut;
+      if (src.coin(2, 3))
+      {
+        std::size_t fi = static_cast<std::size_t>(src.range(0, static_cast<std::int64_t>(s.starts.size()) - 1));
+        cut = s.starts[fi] + static_cast<std::size_t>(src.range(0, 13));
+      }
+      else
+        cut = static_cast<std::size_t>(src.range(1, static_cast<std::int64_t>(s.wire.size()) - 1));
+      if (cut >= 1 && cut < s.wire.size()) p.cuts.push_back(cut);
+    }
+    break;
+  }
+  default: p.cuts = c18::multiCut(src, s.wire.size(), 12); break;
+  }
+  auto rows = src.rows(6, 3, 0, 1 << 16);
+  for (auto &r : rows)
+  {
+    LoopPlan::Op op;
+    op.beforeSegment = static_cast<std::size_t>(r[0]) % (p.cuts.size() + 2);
+    int k = static_cast<int>(r[1] % (allowAppClose ? 8 : 7));
+    op.kind = k < 3 ? 't' : k < 5 ? 'b' : k < 7 ? 'p' : 'c';
+    // big payloads are rare
+    op.lenClass = static_cast<std::size_t>(r[2] % 64) < 58 ? static_cast<std::size_t>(r[2] % 7) : 7 + static_cast<std::size_t>(r[2] % 3);
+    if (op.kind == 'c') p.hasAppClose = true;
+    p.ops.push_back(op);
+  }
+  std::stable_sort(p.ops.begin(), p.ops.end(), [](const LoopPlan::Op &a, const LoopPlan::Op &b) { return a.beforeSegment < b.beforeSegment; });
+  return p;
+}
+
+std::string describePlan(const LoopPlan &p)
+{
+  pbt::Fmt o;
+  o << showCuts(p.cuts) << " ops{";
+  for (auto &op : p.ops) o << op.kind << "@" << op.beforeSegment << "/" << op.lenClass << " ";
+  o << "}";
+  return o.str();
+}
+
+const std::string kSentinel = std::string("\0SENTINEL-C18-end-of-case", 25);
+
+} // namespace
+
+// ---------------------------------------------------------------------------- loop driver
+namespace
+{
+
+/// What the loopback executor needs from the endpoint under test.
+struct LoopEndpoint
+{
+  std::function<void(const AppSend &)> appSend; // perform one application send ('t','b','p','c')
+};
+
+struct LoopResult
+{
+  std::vector<AppSend> sends;
+  bool closing = false;   // the harness did something that makes the endpoint start closing
+  bool appClosed = false; // ... namely an application-level sendClose
+  bool connLost = false;
+};
+
+std::size_t countDataMsgs(const std::string &rx)
+{
+  c18net::WireFrames w = c18net::decodeAll(rx);
+  std::size_t n = 0;
+  for (auto &f : w.frames)
+    if ((f.opcode == refws::OpText || f.opcode == refws::OpBinary || f.opcode == refws::OpCont) && f.fin) ++n;
+  return n;
+}
+bool wireHasClose(const std::string &rx)
+{
+  c18net::WireFrames w = c18net::decodeAll(rx);
+  for (auto &f : w.frames)
+    if (f.opcode == refws::OpClose) return true;
+  return false;
+}
+/// end-of-case wait: true as soon as the wire can be judged - the sentinel pong arrived, or as
+/// many pongs as pings were sent arrived (then a wrong one is a data failure, not a timeout), or
+/// the bytes are not valid frames at all
+bool sentinelOrVerdict(const std::string &rx, const std::string &sentinel, std::size_t pingsSent)
+{
+  c18net::WireFrames w = c18net::decodeAll(rx);
+  if (!w.ok) return true;
+  std::size_t pongs = 0;
+  for (auto &f : w.frames)
+    if (f.opcode == refws::OpPong)
+    {
+      if (f.payload == sentinel) return true;
+      ++pongs;
+    }
+  return pongs >= pingsSent + 1;
+}
+
+/// write the stream segment by segment, performing the application sends where the plan says
+LoopResult driveLoop(const Stream &s, const LoopPlan &plan, c18net::RawConn &conn, const LoopEndpoint &ep)
+{
+  LoopResult r;
+  std::size_t opi = 0, from = 0, appIdx = 0, certainData = 0;
+  const std::size_t nseg = plan.cuts.size() + 1;
+  for (std::size_t seg = 0; seg <= nseg; ++seg)
+  {
+    while (opi < plan.ops.size() && plan.ops[opi].beforeSegment <= seg)
+    {
+      const auto &op = plan.ops[opi++];
+      AppSend a;
+      a.kind = op.kind;
+      a.certain = !r.closing;
+      if (op.kind == 't') a.payload = appPayload(appIdx++, op.lenClass, true);
+      else if (op.kind == 'b') a.payload = appPayload(appIdx++, op.lenClass, false);
+      else if (op.kind == 'p') a.payload = appPayload(appIdx++, op.lenClass % 4, false);
+      ep.appSend(a);
+      if (op.kind == 'c')
+      {
+        r.closing = true;
+        r.appClosed = true;
+      }
+      r.sends.push_back(a);
+      if ((op.kind == 't' || op.kind == 'b') && a.certain)
+      {
+        // let the message reach the wire completely before anything can start a close: a close
+        // racing a partially written large frame is transport behaviour (C01/C16), not C18's
+        ++certainData;
+        conn.readUntil([&] { return countDataMsgs(conn.rx) >= certainData; }, 30.0);
+      }
+    }
+    if (seg == nseg) break;
+    std::size_t to = seg < plan.cuts.size() ? plan.cuts[seg] : s.wire.size();
+    if (s.triggerEnd != std::string::npos && to >= s.triggerEnd) r.closing = true;
+    if (!conn.writeSegment(std::string_view(s.wire).substr(from, to - from)))
+    {
+      r.connLost = true;
+      break;
+    }
+    from = to;
+  }
+  return r;
+}
+
+void splitPings(const Stream &s, bool synced, bool appClosed, std::vector<std::string> &required, std::vector<std::string> &optional)
+{
+  for (std::size_t i = 0; i < s.pings.size(); ++i)
+  {
+    bool beforeTrigger = s.triggerEnd == std::string::npos || s.pingEnds[i] <= s.triggerEnd;
+    // an application close at an arbitrary point makes every ping optional (the harness cannot
+    // know which were processed before it); without a synchronisation point nothing is certain
+    if (beforeTrigger && synced && !appClosed) required.push_back(s.pings[i]);
+    else optional.push_back(s.pings[i]);
+  }
+}
+
+/// delivery oracle for the loopback runs
+bool judgeLoopDeliveries(pbt::Case &c, const std::string &side, const Stream &s, const LoopResult &r, const Outcome &o, const std::string &seg)
+{
+  if (r.appClosed)
+  {
+    // the application closed at an arbitrary point: what was delivered must be a prefix
+    if (!isPrefix(o.msgs, s.expect))
+    {
+      c.fail("C18/" + side + "/messages-differ", "delivered " + showMsgs(o.msgs) + " is not a prefix of " + showMsgs(s.expect) + " [" + seg + "]");
+      return false;
+    }
+    if (s.hasInvalidText)
+      for (auto &m : o.msgs)
+        if (m.text && m.payload == s.invalidPayload)
+        {
+          c.fail("C18/" + side + "/invalid-utf8-delivered", "a text message that is not UTF-8 was delivered over loopback [" + seg + "]");
+          return false;
+        }
+    return true;
+  }
+  Stream judged = s;
+  if (!r.closing)
+  {
+    // the harness ended the session with its own close frame (code 1000, no reason)
+    judged.hasClose = true;
+    judged.closeCode = 1000;
+    judged.closeReason.clear();
+  }
+  return judge(c, side, judged, o, seg);
+}
+
+void labelPlan(pbt::Case &c, const Stream &s, const LoopPlan &plan, const LoopResult &r)
+{
+  bool headerCut = false;
+  for (auto cut : plan.cuts)
+    if (c18::cutInsideHeader(s, cut)) headerCut = true;
+  if (headerCut) c.label("cut inside a frame header");
+  if (r.appClosed) c.label("application sendClose in plan");
+  bool dataAfter = false, seenClose = false;
+  for (auto &a : r.sends)
+  {
+    if (a.kind == 'c') seenClose = true;
+    else if (seenClose && (a.kind == 't' || a.kind == 'b')) dataAfter = true;
+  }
+  if (dataAfter) c.label("application data send after its own sendClose");
+  if (s.fragmentedMsgs && s.controlInsideMsg && headerCut) c.nontrivial(pbt::hash64(s.wire + describePlan(plan)));
+}
+
+} // namespace
+
+// ---------------------------------------------------------------------------- server_wire
+PBT_PROPERTY(server_wire)
+{
+  pbt::watchdog(120, "C18/server/loopback-stalled");
+  std::string why;
+  LoopServer *srv = loopServer(why);
+  if (!srv)
+  {
+    c.inconclusive("could not start a WebSocketServer on a loopback port: " + why);
+    return;
+  }
+  c18::GenOpts go;
+  go.masked = true;
+  go.allowBig = src.coin(1, 10);
+  Stream s = c18::genStream(src, go);
+  LoopPlan plan = drawPlan(src, s, true);
+  c.describe("server <- " + s.describe() + " | " + describePlan(plan));
+  labelStream(c, s);
+
+  c18net::RawConn conn;
+  conn.fd = c18net::connectLoopback(srv->port);
+  if (conn.fd < 0)
+  {
+    c.inconclusive("cannot connect to the server under test");
+    return;
+  }
+  std::string key = randomKey(src);
+  if (!c18net::clientHandshake(conn, key, why))
+  {
+    c.fail("C18/server/handshake", why);
+    return;
+  }
+  ws::SessionId sid;
+  {
+    std::lock_guard<std::mutex> g(srv->log.m);
+    sid = srv->log.sid;
+  }
+  conn.peerFd = c18net::findPeerFd(conn.fd);
+  if (conn.peerFd >= 0) c.label("read barrier exact (endpoint descriptor found)");
+
+  LoopEndpoint ep;
+  ep.appSend = [&](const AppSend &a)
+  {
+    switch (a.kind)
+    {
+    case 't': srv->sendText(sid, a.payload); break;
+    case 'b': srv->sendBinary(sid, std::vector<std::uint8_t>(a.payload.begin(), a.payload.end())); break;
+    case 'p': srv->sendPing(sid, std::vector<std::uint8_t>(a.payload.begin(), a.payload.end())); break;
+    default: srv->sendClose(sid, 1001, "going away"); break;
+    }
+  };
+  LoopResult r = driveLoop(s, plan, conn, ep);
+  if (r.connLost && !r.closing)
+  {
+    c.fail("C18/server/connection-lost", "the server dropped the connection in the middle of a valid stream");
+    return;
+  }
+
+  // end of case: a point behind which everything was processed, then collect the wire
+  bool synced = false;
+  if (!r.closing)
+  {
+    conn.writeSegment(refws::encode(maskedFrame(src, refws::OpPing, kSentinel, true)));
+    if (!conn.readUntil([&] { return sentinelOrVerdict(conn.rx, kSentinel, s.pings.size()); }, 30.0))
+    {
+      c.failTimed("C18/server/ping-unanswered", "a ping behind a valid stream was not answered within 30 s on an open session");
+      return;
+    }
+    synced = true;
+    conn.writeSegment(refws::encode(maskedFrame(src, refws::OpClose, std::string("\x03\xe8", 2), true))); // orderly end
+  }
+  // The server's own close frame (echo, 1007 or the application's) is the other synchronisation
+  // point: frames leave in order, so everything it sent before has arrived when the close frame
+  // has. Only then is our side of the connection shut down - replies to a peer that has already
+  // sent FIN may be dropped by the transport, which is not C18's business.
+  if (conn.readUntil([&] { return wireHasClose(conn.rx); }, 30.0)) synced = true;
+  else c.label("no close frame from the server");
+  conn.shutdownWrite();
+  bool sawEof = conn.readUntil([&] { return conn.eof; }, 30.0);
+  if (!sawEof) c.label("server kept the TCP connection open for 30 s after the peer finished");
+
+  Outcome o;
+  {
+    std::lock_guard<std::mutex> g(srv->log.m);
+    o = srv->log.o;
+  }
+  std::string seg = describePlan(plan);
+  // at EOF the server has processed every inbound byte (it reads the data before the FIN)
+  if ((synced || sawEof) && !judgeLoopDeliveries(c, "server", s, r, o, seg)) return;
+  std::vector<std::string> required, optional;
+  splitPings(s, synced, r.appClosed, required, optional);
+  if (!judgeWire(c, "server", conn.rx, conn.eof, required, optional, r.sends, kSentinel, false)) return;
+  if (!required.empty()) c.label("pings answered with matching pongs");
+  labelPlan(c, s, plan, r);
+}
+
+// ---------------------------------------------------------------------------- client_wire
+namespace
+{
+c18net::RawListener &rawListener()
+{
+  static c18net::RawListener *l = new c18net::RawListener;
+  return *l;
+}
+
+struct ClientUnderTest
+{
+  std::shared_ptr<ws::WebSocketClient> cl;
+  std::shared_ptr<SharedLog> log = std::make_shared<SharedLog>();
+  c18net::RawConn conn;
+
+  /// create a client, let it connect to the raw listener and complete the opening handshake
+  bool start(std::string &why, bool &harnessSide)
+  {
+    quietLogs();
+    harnessSide = false;
+    c18net::RawListener &lst = rawListener();
+    if (lst.port <= 0)
+    {
+      why = "raw listener could not bind";
+      harnessSide = true;
+      return false;
+    }
+    cl = ws::WebSocketClient::create();
+    auto lg = log; // callbacks must not own the client (HR-11); they own the log only
+    cl->setOnTextMessage([lg](const std::string &t)
+                         {
+                           std::lock_guard<std::mutex> g(lg->m);
+                           lg->o.msgs.push_back(Msg{true, t});
+                         });
+    cl->setOnBinaryMessage([lg](const std::vector<std::uint8_t> &b)
+                           {
+                             std::lock_guard<std::mutex> g(lg->m);
+                             lg->o.msgs.push_back(Msg{false, std::string(b.begin(), b.end())});
+                           });
+    cl->setOnClose([lg](std::uint16_t code, const std::string &reason)
+                   {
+                     std::lock_guard<std::mutex> g(lg->m);
+                     ++lg->o.closeCallbacks;
+                     lg->o.closeCode = code;
+                     lg->o.closeReason = reason;
+                   });
+    cl->setOnError([lg](const std::string &)
+                   {
+                     std::lock_guard<std::mutex> g(lg->m);
+                     ++lg->o.errors;
+                   });
+    bool accepted = false;
+    std::string acceptWhy;
+    std::thread acceptor([&] { accepted = lst.acceptAndUpgrade(conn, acceptWhy); });
+    bool connected = false;
+    try
+    {
+      connected = cl->connect("127.0.0.1", static_cast<std::uint16_t>(lst.port), "/ws", ws::WebSocketClient::Options(), std::chrono::milliseconds(30000));
+    }
+    catch (const std::exception &e)
+    {
+      acceptor.join();
+      why = std::string("connect() threw: ") + e.what();
+      return false;
+    }
+    acceptor.join();
+    if (!accepted)
+    {
+      why = "raw server side: " + acceptWhy;
+      harnessSide = !connected; // nothing arrived and the client says so too: environment
+      return false;
+    }
+    if (!connected)
+    {
+      why = "the raw server answered 101 with the correct Sec-WebSocket-Accept but connect() returned false";
+      return false;
+    }
+    conn.peerFd = c18net::findPeerFd(conn.fd);
+    return true;
+  }
+};
+} // namespace
+
+PBT_PROPERTY(client_wire)
+{
+  pbt::watchdog(120, "C18/client/loopback-stalled");
+  c18::GenOpts go;
+  go.masked = false;
+  go.allowBig = src.coin(1, 10);
+  go.allowInvalidUtf8 = !pbt::isKnown("C18/client/invalid-utf8-delivered");
+  Stream s = c18::genStream(src, go);
+  const bool allowDataAfterClose = !pbt::isKnown("C18/client/data-after-close");
+  LoopPlan plan = drawPlan(src, s, true);
+  if (!allowDataAfterClose)
+  {
+    // known finding: exclude the shape by construction - no application data send behind sendClose
+    bool closed = false;
+    std::vector<LoopPlan::Op> kept;
+    for (auto &op : plan.ops)
+    {
+      if (op.kind == 'c') closed = true;
+      else if (closed && (op.kind == 't' || op.kind == 'b'))
+      {
+        c.label("excluded by known finding: data send after sendClose");
+        continue;
+      }
+      kept.push_back(op);
+    }
+    plan.ops = kept;
+  }
+  c.describe("client <- " + s.describe() + " | " + describePlan(plan));
+  labelStream(c, s);
+
+  ClientUnderTest cut;
+  std::string why;
+  bool harnessSide = false;
+  if (!cut.start(why, harnessSide))
+  {
+    if (harnessSide) c.inconclusive(why);
+    else c.fail("C18/client/handshake", why);
+    return;
+  }
+  c18net::RawConn &conn = cut.conn;
+  if (conn.peerFd >= 0) c.label("read barrier exact (endpoint descriptor found)");
+
+  LoopEndpoint ep;
+  ep.appSend = [&](const AppSend &a)
+  {
+    switch (a.kind)
+    {
+    case 't': cut.cl->sendText(a.payload); break;
+    case 'b': cut.cl->sendBinary(std::vector<std::uint8_t>(a.payload.begin(), a.payload.end())); break;
+    case 'p': cut.cl->sendPing(std::vector<std::uint8_t>(a.payload.begin(), a.payload.end())); break;
+    default: cut.cl->sendClose(1001, "going away"); break;
+    }
+  };
+  LoopResult r = driveLoop(s, plan, conn, ep);
+  if (r.connLost && !r.closing)
+  {
+    c.fail("C18/client/connection-lost", "the client dropped the connection in the middle of a valid stream");
+    return;
+  }
+  bool synced = false;
+  if (!r.closing)
+  {
+    conn.writeSegment(refws::encode(maskedFrame(src, refws::OpPing, kSentinel, false)));
+    if (!conn.readUntil([&] { return sentinelOrVerdict(conn.rx, kSentinel, s.pings.size()); }, 30.0))
+    {
+      c.failTimed("C18/client/ping-unanswered", "a ping behind a valid stream was not answered within 30 s on an open connection");
+      return;
+    }
+    synced = true;
+    conn.writeSegment(refws::encode(maskedFrame(src, refws::OpClose, std::string("\x03\xe8", 2), false))); // orderly end
+  }
+  // the client's own close frame (echo, 1007 or the application's) is the other synchronisation
+  // point: frames are sent in order, so everything before it has arrived when it has
+  if (conn.readUntil([&] { return wireHasClose(conn.rx); }, r.closing && !r.appClosed && s.hasInvalidText && !s.hasClose ? 10.0 : 30.0)) synced = true;
+  else c.label("no close frame from the client");
+  cut.cl->disconnect(); // joins the client's I/O thread: every callback has returned afterwards
+  conn.readUntil([&] { return conn.eof; }, 30.0);
+
+  Outcome o;
+  {
+    std::lock_guard<std::mutex> g(cut.log->m);
+    o = cut.log->o;
+  }
+  std::string seg = describePlan(plan);
+  // disconnect() joined the I/O thread behind an exact read barrier: every inbound byte was processed
+  if (!judgeLoopDeliveries(c, "client", s, r, o, seg)) return;
+  std::vector<std::string> required, optional;
+  splitPings(s, synced, r.appClosed, required, optional);
+  if (!judgeWire(c, "client", conn.rx, conn.eof, required, optional, r.sends, kSentinel, true)) return;
+  if (!required.empty()) c.label("pings answered with matching pongs");
+  labelPlan(c, s, plan, r);
+}
+
+
+// =======================================================================================
+// close races: application threads hammer sendText/sendBinary while the close handshake is
+// started (by the application, by the peer's close frame, or by an invalid text message).
+// Oracle on the wire capture: nothing but control frames behind the endpoint's close frame,
+// every data frame intact, per-thread order preserved.
+// =======================================================================================
+namespace
+{
+
+struct RacePlan
+{
+  int threads;
+  int sendsPerThread;
+  int trigger;      // 0 application sendClose, 1 peer close frame, 2 peer invalid UTF-8 text
+  int delaySpins;   // yields of the main thread before it pulls the trigger
+  std::vector<std::uint32_t> yieldSeeds;
+};
+
+RacePlan drawRace(pbt::Src &src)
+{
+  RacePlan p;
+  p.threads = static_cast<int>(src.range(1, 4));
+  p.sendsPerThread = static_cast<int>(src.sized(5, 150));
+  p.trigger = static_cast<int>(src.range(0, 2));
+  p.delaySpins = static_cast<int>(src.range(0, 400));
+  for (int i = 0; i < p.threads; ++i) p.yieldSeeds.push_back(static_cast<std::uint32_t>(src.range(1, 0x7fffffff)));
+  return p;
+}
+
+std::string describeRace(const RacePlan &p)
+{
+  static const char *trig[] = {"application sendClose", "peer close frame", "peer invalid UTF-8 text"};
+  return pbt::Fmt() << p.threads << " threads x " << p.sendsPerThread << " sends, trigger: " << trig[p.trigger] << " after " << p.delaySpins << " yields";
+}
+
+/// run the sender threads; `send(k, i, payload, text)` performs one application send
+template <class SendFn, class TriggerFn> void runRace(const RacePlan &p, SendFn send, TriggerFn trigger)
+{
+  std::atomic<bool> go{false};
+  std::vector<std::thread> ts;
+  for (int k = 0; k < p.threads; ++k)
+    ts.emplace_back(
+      [&, k]
+      {
+        std::uint32_t x = p.yieldSeeds[static_cast<std::size_t>(k)];
+        while (!go.load(std::memory_order_acquire)) std::this_thread::yield();
+        for (int i = 0; i < p.sendsPerThread; ++i)
+        {
+          send(k, i, "t" + std::to_string(k) + "-" + std::to_string(i), (k + i) % 2 == 0);
+          x = x * 1664525u + 1013904223u;
+          if ((x >> 28) < 3) std::this_thread::yield();
+        }
+      });
+  go.store(true, std::memory_order_release);
+  for (int i = 0; i < p.delaySpins; ++i) std::this_thread::yield();
+  trigger();
+  for (auto &t : ts) t.join();
+}
+
+bool judgeRaceWire(pbt::Case &c, const std::string &side, const std::string &wire, bool eof, const RacePlan &p)
+{
+  const std::string P = "C18/" + side + "/";
+  c18net::WireFrames w = c18net::decodeAll(wire);
+  if (std::getenv("C18_DEBUG")) std::fprintf(stderr, "[c18] race wire %zu bytes, %zu frames\n", wire.size(), w.frames.size());
+  if (!w.ok)
+  {
+    c.fail(P + "wire-malformed", "bytes sent by the " + side + " under concurrent sends are not a sequence of valid frames: " + w.why);
+    return false;
+  }
+  if (w.tail && !eof)
+  {
+    c.fail(P + "wire-malformed", "trailing bytes do not form a complete frame");
+    return false;
+  }
+  bool closeSeen = false;
+  std::vector<int> next(static_cast<std::size_t>(p.threads), 0);
+  std::size_t idx = 0, dataFrames = 0;
+  for (auto &f : w.frames)
+  {
+    const bool data = f.opcode == refws::OpText || f.opcode == refws::OpBinary || f.opcode == refws::OpCont;
+    if (data && closeSeen)
+    {
+      c.fail(P + "data-after-close", pbt::Fmt() << "frame #" << idx << " (" << refws::opName(f.opcode) << " " << pbt::show(f.payload, 24)
+                                                << ") was sent after the endpoint's close frame while application threads were sending");
+      return false;
+    }
+    if (f.opcode == refws::OpClose) closeSeen = true;
+    if (data)
+    {
+      ++dataFrames;
+      int k = -1, i = -1;
+      if (std::sscanf(f.payload.c_str(), "t%d-%d", &k, &i) != 2 || k < 0 || k >= p.threads || f.payload != "t" + std::to_string(k) + "-" + std::to_string(i) || !f.fin ||
+          (f.opcode == refws::OpText) != ((k + i) % 2 == 0))
+      {
+        c.fail(P + "sent-message-mismatch", "a data frame on the wire is not one of the application's messages: " + pbt::show(f.payload, 40));
+        return false;
+      }
+      if (i < next[static_cast<std::size_t>(k)])
+      {
+        c.fail(P + "sent-message-mismatch", pbt::Fmt() << "messages of thread " << k << " are out of order or duplicated on the wire (#" << i << " after #"
+                                                       << next[static_cast<std::size_t>(k)] - 1 << ")");
+        return false;
+      }
+      next[static_cast<std::size_t>(k)] = i + 1;
+    }
+    ++idx;
+  }
+  if (closeSeen) c.label("endpoint sent a close frame");
+  if (closeSeen && dataFrames > 0 && dataFrames < static_cast<std::size_t>(p.threads * p.sendsPerThread)) c.label("close landed in the middle of the sends");
+  if (dataFrames == 0) c.label("close won before any send");
+  if (dataFrames == static_cast<std::size_t>(p.threads * p.sendsPerThread)) c.label("all sends before the close");
+  return true;
+}
+
+const std::string kInvalidText = std::string("bad \xc3\x28 text", 11);
+
+} // namespace
+
+PBT_PROPERTY(server_close_race)
+{
+  pbt::watchdog(120, "C18/server/loopback-stalled");
+  std::string why;
+  LoopServer *srv = loopServer(why);
+  if (!srv)
+  {
+    c.inconclusive("could not start a WebSocketServer on a loopback port: " + why);
+    return;
+  }
+  RacePlan p = drawRace(src);
+  c.describe("server: " + describeRace(p));
+  c18net::RawConn conn;
+  conn.fd = c18net::connectLoopback(srv->port);
+  if (conn.fd < 0)
+  {
+    c.inconclusive("cannot connect to the server under test");
+    return;
+  }
+  if (!c18net::clientHandshake(conn, randomKey(src), why))
+  {
+    c.fail("C18/server/handshake", why);
+    return;
+  }
+  ws::SessionId sid;
+  {
+    std::lock_guard<std::mutex> g(srv->log.m);
+    sid = srv->log.sid;
+  }
+  std::string triggerBytes;
+  if (p.trigger == 1) triggerBytes = refws::encode(maskedFrame(src, refws::OpClose, std::string("\x03\xe8", 2), true));
+  if (p.trigger == 2) triggerBytes = refws::encode(maskedFrame(src, refws::OpText, kInvalidText, true));
+  runRace(
+    p,
+    [&](int, int, const std::string &payload, bool text)
+    {
+      if (text) srv->sendText(sid, payload);
+      else srv->sendBinary(sid, std::vector<std::uint8_t>(payload.begin(), payload.end()));
+    },
+    [&]
+    {
+      if (p.trigger == 0) srv->sendClose(sid, 1001, "going away");
+      else conn.writeAll(triggerBytes.data(), triggerBytes.size());
+    });
+  conn.readUntil([&] { return wireHasClose(conn.rx); }, 30.0);
+  conn.shutdownWrite();
+  conn.readUntil([&] { return conn.eof; }, 30.0);
+  c.nontrivial(pbt::hash64(describeRace(p)));
+  c.label(std::string("trigger: ") + (p.trigger == 0 ? "application sendClose" : p.trigger == 1 ? "peer close frame" : "peer invalid UTF-8 text"));
+  judgeRaceWire(c, "server", conn.rx, conn.eof, p);
+}
+
+PBT_PROPERTY(client_close_race)
+{
+  pbt::watchdog(120, "C18/client/loopback-stalled");
+  RacePlan p = drawRace(src);
+  if (p.trigger == 2 && pbt::isKnown("C18/client/invalid-utf8-delivered")) p.trigger = 1;
+  if (pbt::isKnown("C18/client/data-after-close"))
+  {
+    c.label("excluded by known finding: data send after close");
+    return;
+  }
+  c.describe("client: " + describeRace(p));
+  ClientUnderTest cut;
+  std::string why;
+  bool harnessSide = false;
+  if (!cut.start(why, harnessSide))
+  {
+    if (harnessSide) c.inconclusive(why);
+    else c.fail("C18/client/handshake", why);
+    return;
+  }
+  c18net::RawConn &conn = cut.conn;
+  std::string triggerBytes;
+  if (p.trigger == 1) triggerBytes = refws::encode(maskedFrame(src, refws::OpClose, std::string("\x03\xe8", 2), false));
+  if (p.trigger == 2) triggerBytes = refws::encode(maskedFrame(src, refws::OpText, kInvalidText, false));
+  runRace(
+    p,
+    [&](int, int, const std::string &payload, bool text)
+    {
+      if (text) cut.cl->sendText(payload);
+      else cut.cl->sendBinary(std::vector<std::uint8_t>(payload.begin(), payload.end()));
+    },
+    [&]
+    {
+      if (p.trigger == 0) cut.cl->sendClose(1001, "going away");
+      else conn.writeAll(triggerBytes.data(), triggerBytes.size());
+    });
+  conn.readUntil([&] { return wireHasClose(conn.rx); }, 30.0);
+  cut.cl->disconnect();
+  conn.readUntil([&] { return conn.eof; }, 30.0);
+  c.nontrivial(pbt::hash64(describeRace(p)));
+  c.label(std::string("trigger: ") + (p.trigger == 0 ? "application sendClose" : p.trigger == 1 ? "peer close frame" : "peer invalid UTF-8 text"));
+  judgeRaceWire(c, "client", conn.rx, conn.eof, p);
+}
+
+// =======================================================================================
+// hostile: headers declaring absurd lengths, illegal control frames, accumulated fragments,
+// mutated streams. Nothing may throw out of parse / the data path, no allocation may exceed
+// what the bytes actually received justify, and an endpoint must not keep buffering behind
+// a frame it can never accept.
+// =======================================================================================
+#if defined(__has_feature)
+#if __has_feature(address_sanitizer)
+#define C18_HAVE_ALLOC_HOOKS 1
+#include <sanitizer/allocator_interface.h>
+#endif
+#endif
+
+namespace
+{
+
+std::atomic<bool> gTrackAllocs{false};
+std::atomic<std::size_t> gMaxAlloc{0};
+
+#ifdef C18_HAVE_ALLOC_HOOKS
+void c18MallocHook(const volatile void *, size_t n)
+{
+  if (!gTrackAllocs.load(std::memory_order_relaxed)) return;
+  std::size_t cur = gMaxAlloc.load(std::memory_order_relaxed);
+  while (n > cur && !gMaxAlloc.compare_exchange_weak(cur, n, std::memory_order_relaxed)) {}
+}
+void c18FreeHook(const volatile void *) {}
+#endif
+
+/// records the largest single allocation made while it is alive (ASan allocator hooks)
+struct AllocScope
+{
+  AllocScope()
+  {
+#ifdef C18_HAVE_ALLOC_HOOKS
+    static bool installed = (__sanitizer_install_malloc_and_free_hooks(c18MallocHook, c18FreeHook), true);
+    (void)installed;
+#endif
+    gMaxAlloc.store(0);
+    gTrackAllocs.store(true);
+  }
+  ~AllocScope() { gTrackAllocs.store(false); }
+  std::size_t largest() const { return gMaxAlloc.load(); }
+};
+
+/// common interface over the two in-process endpoints for the hostile cases
+struct HostileEndpoint
+{
+  std::string side;
+  Outcome o;
+  bool threw = false;
+  std::string what;
+  std::shared_ptr<ws::WebSocketClient> cl;
+
+  explicit HostileEndpoint(bool server, std::size_t maxFrame = 16u << 20) : side(server ? "server" : "client")
+  {
+    if (server)
+    {
+      ProbeServer &srv = probeServer();
+      srv.setMaxFrameSize(maxFrame);
+      srv.out = &o;
+      if (!srv.open(kSid))
+      {
+        threw = true;
+        what = "upgrade of the in-process session failed";
+      }
+    }
+#ifdef JOEGEN_IORA_VERIF_WS_CLIENT_PROBE
+    else
+    {
+      quietLogs();
+      cl = ws::WebSocketClient::create();
+      Outcome *op = &o;
+      cl->setOnTextMessage([op](const std::string &t) { op->msgs.push_back(Msg{true, t}); });
+      cl->setOnBinaryMessage([op](const std::vector<std::uint8_t> &b) { op->msgs.push_back(Msg{false, std::string(b.begin(), b.end())}); });
+      cl->setOnClose([op](std::uint16_t code, const std::string &reason)
+                     {
+                       ++op->closeCallbacks;
+                       op->closeCode = code;
+                       op->closeReason = reason;
+                     });
+      cl->setOnError([op](const std::string &) { ++op->errors; });
+      WebSocketClientProbe::prime(*cl);
+    }
+#endif
+  }
+  ~HostileEndpoint()
+  {
+    if (side == "server") probeServer().out = nullptr;
+  }
+  bool isServer() const { return side == "server"; }
+
+  void feed(std::string_view bytes)
+  {
+    if (threw) return;
+    ExactBuf seg(bytes);
+    try
+    {
+      if (isServer()) probeServer().feed(kSid, seg.p.get(), seg.n);
+#ifdef JOEGEN_IORA_VERIF_WS_CLIENT_PROBE
+      else WebSocketClientProbe::feed(*cl, seg.p.get(), seg.n);
+#endif
+    }
+    catch (const std::exception &e)
+    {
+      threw = true;
+      what = std::string(typeid(e).name()) + ": " + e.what();
+    }
+    catch (...)
+    {
+      threw = true;
+      what = "unknown exception";
+    }
+  }
+  /// the endpoint has given up on the connection (sent its close frame / asked for the TCP close)
+  bool deactivated()
+  {
+    if (isServer()) return !probeServer().isSessionActive(kSid) || o.closeSessionCalls > 0;
+#ifdef JOEGEN_IORA_VERIF_WS_CLIENT_PROBE
+    return cl->getState() != ws::WebSocketState::CONNECTED || o.errors > 0 || o.closeCallbacks > 0 || WebSocketClientProbe::closeSent(*cl);
+#else
+    return true;
+#endif
+  }
+};
+
+bool clientReachable()
+{
+#ifdef JOEGEN_IORA_VERIF_WS_CLIENT_PROBE
+  return true;
+#else
+  return false;
+#endif
+}
+
+std::string payloadBytes(pbt::Src &src, std::size_t n)
+{
+  std::string o(n, '\0');
+  std::uint32_t x = static_cast<std::uint32_t>(src.range(1, 0x7fffffff));
+  for (auto &ch : o)
+  {
+    x = x * 1664525u + 1013904223u;
+    ch = static_cast<char>(x >> 24);
+  }
+  return o;
+}
+
+std::uint64_t drawHugeLength(pbt::Src &src, bool msbSet)
+{
+  const std::uint64_t top = 1ULL << 63;
+  if (msbSet)
+  {
+    switch (src.weighted({4, 3, 2, 2}))
+    {
+    case 0: return ~0ULL - static_cast<std::uint64_t>(src.range(0, 40)); // pos + len wraps around
+    case 1: return top + static_cast<std::uint64_t>(src.range(0, 40));
+    case 2: return top | (static_cast<std::uint64_t>(src.range(0, 0x7fffffff)) << 31) | static_cast<std::uint64_t>(src.range(0, 0x7fffffff));
+    default: return ~0ULL - static_cast<std::uint64_t>(src.range(0, 1 << 20));
+    }
+  }
+  switch (src.weighted({3, 3, 3, 2}))
+  {
+  case 0: return top - 1 - static_cast<std::uint64_t>(src.range(0, 40));
+  case 1: return (1ULL << 62) + static_cast<std::uint64_t>(src.range(0, 1000));
+  case 2: return (1ULL << 32) + static_cast<std::uint64_t>(src.range(-20, 20));
+  default: return (1ULL << 31) + static_cast<std::uint64_t>(src.range(-20, 20));
+  }
+}
+
+/// valid follow-up traffic: text messages "after-<i>" padded to ~1 KiB each, `total` bytes at least
+std::string followUp(bool masked, std::size_t total, std::vector<Msg> &msgs)
+{
+  std::string wire;
+  std::size_t i = 0;
+  while (wire.size() < total)
+  {
+    refws::Frame f;
+    f.opcode = refws::OpText;
+    f.masked = masked;
+    f.key[0] = 0x11, f.key[1] = 0x22, f.key[2] = 0x33, f.key[3] = static_cast<std::uint8_t>(i);
+    f.payload = "after-" + std::to_string(i++) + ":" + std::string(1000, 'z');
+    msgs.push_back(Msg{true, f.payload});
+    wire += refws::encode(f);
+  }
+  return wire;
+}
+
+/// after a frame the endpoint can never accept: it must either have given up on the connection
+/// or still be making progress - never sit on an ever-growing buffer
+bool judgeNoStall(pbt::Case &c, HostileEndpoint &ep, const std::vector<Msg> &follow, const std::string &sigTail, const std::string &what)
+{
+  if (ep.threw)
+  {
+    c.fail("C18/" + ep.side + "/exception", what + ": exception left the data path: " + ep.what);
+    return false;
+  }
+  if (ep.deactivated()) return true;
+  // still active: then the follow-up traffic must have been processed
+  std::size_t got = 0;
+  for (auto &m : ep.o.msgs)
+    if (got < follow.size() && m == follow[got]) ++got;
+  if (got == follow.size()) return true;
+  c.fail("C18/" + ep.side + "/" + sigTail, pbt::Fmt() << what << ": the session is still active, sent no close, and delivered " << got << " of " << follow.size()
+                                                      << " valid messages that followed (" << follow.size() * 1010 << " bytes retained or lost)");
+  return false;
+}
+
+void hostileClientOversized(pbt::Case &c, std::uint64_t L, std::size_t chunk)
+{
+  std::uint8_t key[4] = {0, 0, 0, 0};
+  std::string hdr = refws::rawHeader(true, 0, refws::OpBinary, false, key, 127, L);
+  const std::size_t toFeed = 65536;
+  c.describe(pbt::Fmt() << "client <- BIN header declaring " << L << " bytes, then " << toFeed << " payload bytes in reads of " << chunk);
+  c.label("client: declared length >= 2^62");
+  c.nontrivial(pbt::hashMix(L, chunk));
+  HostileEndpoint ep(false);
+  std::size_t largest = 0;
+  {
+    AllocScope as;
+    ep.feed(hdr);
+    for (std::size_t fed = 0; fed < toFeed && !ep.threw; fed += chunk) ep.feed(std::string(std::min(chunk, toFeed - fed), 'A'));
+    largest = as.largest();
+  }
+  if (ep.threw)
+  {
+    c.fail("C18/client/exception", "oversized declared frame: exception left handleData: " + ep.what);
+    return;
+  }
+  if (largest > 4 * toFeed + 65536)
+  {
+    c.fail("C18/client/over-allocation", pbt::Fmt() << "a single allocation of " << largest << " bytes after " << toFeed << " bytes of input");
+    return;
+  }
+  if (!ep.deactivated())
+    c.fail("C18/client/oversized-frame-buffered", pbt::Fmt() << "frame declaring " << L << " bytes: after " << toFeed
+                                                              << " payload bytes the client is still CONNECTED, reported no error and keeps buffering ("
+#ifdef JOEGEN_IORA_VERIF_WS_CLIENT_PROBE
+                                                              << WebSocketClientProbe::buffered(*ep.cl)
+#else
+                                                              << "?"
+#endif
+                                                              << " bytes retained)");
+}
+
+} // namespace
+
+PBT_PROPERTY(hostile)
+{
+  const bool knownOversized = pbt::isKnown("C18/server/oversized-frame-buffered");
+  const bool knownCtlS = pbt::isKnown("C18/server/invalid-control-frame-stalls"), knownCtlC = pbt::isKnown("C18/client/invalid-control-frame-stalls");
+  const bool knownLenS = pbt::isKnown("C18/server/invalid-length-stalls"), knownLenC = pbt::isKnown("C18/client/invalid-length-stalls");
+  std::size_t kind = src.weighted({5, 3, 3, 3, 2, 4});
+  switch (kind)
+  {
+  case 0:
+  {
+    // ---- parse(): arbitrary header, declared length up to 2^64-1, few payload bytes present
+    bool fin = src.coin(3, 4);
+    std::uint8_t rsv = src.coin(1, 8) ? static_cast<std::uint8_t>(src.range(1, 7)) : 0;
+    std::uint8_t opcode = static_cast<std::uint8_t>(src.coin(3, 4) ? src.oneOf<int>({0, 1, 2, 8, 9, 10}) : src.range(0, 15));
+    bool masked = src.coin();
+    std::uint8_t key[4];
+    for (auto &k : key) k = static_cast<std::uint8_t>(src.range(0, 255));
+    int lenCode;
+    std::uint64_t ext = 0;
+    switch (src.weighted({6, 3, 2}))
+    {
+    case 0:
+      lenCode = 127;
+      ext = src.coin(2, 3) ? drawHugeLength(src, src.coin()) : static_cast<std::uint64_t>(src.range(0, 70000));
+      break;
+    case 1:
+      lenCode = 126;
+      ext = static_cast<std::uint64_t>(src.range(0, 65535));
+      break;
+    default: lenCode = static_cast<int>(src.range(0, 125)); break;
+    }
+    std::size_t avail = static_cast<std::size_t>(src.weighted({3, 3, 1}) == 0 ? 0 : src.range(0, 80));
+    if (src.coin(1, 3))
+    {
+      // a frame that IS complete: small declared length in whatever length form was drawn
+      // (non-minimal forms and fragmented / long control frames included)
+      if (lenCode <= 125) avail = std::max<std::size_t>(avail, static_cast<std::size_t>(lenCode) + (src.coin() ? 0 : 3));
+      else
+      {
+        ext = static_cast<std::uint64_t>(src.range(0, static_cast<std::int64_t>(avail)));
+        if (lenCode == 126 && src.coin(1, 3))
+        {
+          ext = static_cast<std::uint64_t>(src.range(126, 300));
+          avail = static_cast<std::size_t>(ext);
+        }
+      }
+    }
+    std::string hdr = refws::rawHeader(fin, rsv, opcode, masked, key, lenCode, ext);
+    std::string input = hdr + payloadBytes(src, avail);
+    // sometimes cut inside the header
+    if (src.coin(1, 5)) input.resize(static_cast<std::size_t>(src.range(0, static_cast<std::int64_t>(input.size()))));
+    const std::uint64_t declared = lenCode == 127 ? ext : lenCode == 126 ? ext : static_cast<std::uint64_t>(lenCode);
+    c.describe(pbt::Fmt() << "parse(" << pbt::hex(input, 40) << ") declared length " << declared << ", " << input.size() << " bytes present");
+    c.label(declared >> 63 ? "parse: declared length >= 2^63" : declared > (1u << 24) ? "parse: declared length > 16 MiB" : "parse: moderate declared length");
+    c.nontrivial(pbt::hash64(input));
+    ExactBuf buf(input);
+    std::size_t consumed = 4711;
+    std::optional<ws::WebSocketFrame> fr;
+    std::size_t largest = 0;
+    try
+    {
+      AllocScope as;
+      fr = ws::WebSocketFrame::parse(buf.view(), consumed);
+      largest = as.largest();
+    }
+    catch (const std::exception &e)
+    {
+      c.fail("C18/frame/parse-exception", pbt::Fmt() << "parse threw " << typeid(e).name() << " (" << e.what() << ") on a header declaring " << declared << " bytes");
+      return;
+    }
+    if (largest > input.size() + 4096)
+    {
+      c.fail("C18/frame/parse-over-allocation", pbt::Fmt() << "parse allocated " << largest << " bytes for an input of " << input.size() << " bytes");
+      return;
+    }
+    if (consumed > input.size())
+    {
+      c.fail("C18/frame/consumed-beyond-input", pbt::Fmt() << "consumed " << consumed << " > " << input.size());
+      return;
+    }
+    refws::Decoded d = refws::decode(input);
+    if (!fr)
+    {
+      if (consumed != 0) c.fail("C18/frame/prefix-consumed", pbt::Fmt() << "no frame returned but consumed=" << consumed);
+      else if (d.st == refws::St::Complete && !d.reservedOpcode)
+        c.fail("C18/frame/roundtrip-incomplete", "a complete valid frame was reported incomplete");
+      return;
+    }
+    if (rsv != 0) return; // documented: RSV bits -> error frame that swallows the buffer
+    if ((opcode == refws::OpClose || opcode == refws::OpPing || opcode == refws::OpPong) && (lenCode > 125 || !fin) && input.size() >= 2)
+    {
+      // parse()'s own documented contract (RFC 6455 5.5): such a frame is a protocol error
+      c.fail("C18/frame/invalid-control-frame-accepted", pbt::Fmt() << "parse returned a " << refws::opName(opcode) << " frame with length code " << lenCode
+                                                                    << " fin=" << fin << " (control frames must be final and at most 125 bytes)");
+      return;
+    }
+    if (d.st == refws::St::Incomplete)
+    {
+      c.fail("C18/frame/prefix-complete", pbt::Fmt() << "parse returned a frame of " << fr->payload.size() << " payload bytes although only " << input.size()
+                                                     << " bytes of a frame declaring " << declared << " are present");
+      return;
+    }
+    if (d.st == refws::St::Complete &&
+        (consumed != d.consumed || std::string(fr->payload.begin(), fr->payload.end()) != d.f.payload || fr->fin != d.f.fin ||
+         static_cast<std::uint8_t>(fr->opcode) != d.f.opcode))
+      c.fail("C18/frame/decode-differs", "parse disagrees with the reference decoder on a complete frame");
+    return;
+  }
+  case 1:
+  {
+    // ---- data frame declaring more than the endpoint can ever accept
+    if (clientReachable() && src.coin(1, 4))
+    {
+      // client: no maximum is configured by the application; a frame of 2^62 bytes or more
+      // cannot be buffered by any machine, so accepting its header means buffering until death
+      if (pbt::isKnown("C18/client/oversized-frame-buffered"))
+      {
+        c.label("excluded by known finding: oversized declared frame (client)");
+        return;
+      }
+      std::uint64_t L = src.coin() ? (1ULL << 63) - 1 - static_cast<std::uint64_t>(src.range(0, 40)) : (1ULL << 62) + static_cast<std::uint64_t>(src.range(0, 1000));
+      hostileClientOversized(c, L, static_cast<std::size_t>(src.range(1, 8192)));
+      return;
+    }
+    if (knownOversized)
+    {
+      c.label("excluded by known finding: oversized declared frame");
+      return;
+    }
+    const std::size_t M = src.oneOf<std::size_t>({16, 125, 126, 1000, 4096, 65536});
+    const std::size_t slack = 16384;
+    std::uint64_t L;
+    switch (src.weighted({3, 3, 3}))
+    {
+    case 0: L = M + static_cast<std::uint64_t>(src.range(1, 40)); break;
+    case 1: L = M + slack + static_cast<std::uint64_t>(src.range(1, 100000)); break;
+    default: L = drawHugeLength(src, false); break;
+    }
+    refws::Frame f;
+    f.opcode = src.coin() ? refws::OpText : refws::OpBinary;
+    f.fin = src.coin(3, 4);
+    f.masked = true;
+    for (auto &k : f.key) k = static_cast<std::uint8_t>(src.range(0, 255));
+    std::string hdr = refws::rawHeader(f.fin, 0, f.opcode, true, f.key, L <= 125 ? static_cast<int>(L) : L <= 0xFFFF ? 126 : 127, L);
+    const std::uint64_t toFeed = std::min<std::uint64_t>(L, M + slack);
+    c.describe(pbt::Fmt() << "server maxFrameSize=" << M << " <- " << refws::opName(f.opcode) << " header declaring " << L << " bytes, then " << toFeed
+                          << " payload bytes");
+    c.label(L > M + slack ? "server: declared length far beyond the maximum" : "server: declared length just beyond the maximum");
+    c.nontrivial(pbt::hashMix(L, M));
+    HostileEndpoint ep(true, M);
+    std::size_t largest = 0;
+    {
+      AllocScope as;
+      ep.feed(hdr);
+      std::uint64_t fed = 0;
+      while (fed < toFeed && !ep.threw)
+      {
+        std::size_t n = static_cast<std::size_t>(std::min<std::uint64_t>(toFeed - fed, static_cast<std::uint64_t>(src.range(1, 4096))));
+        ep.feed(std::string(n, 'A'));
+        fed += n;
+      }
+      largest = as.largest();
+    }
+    if (ep.threw)
+    {
+      c.fail("C18/server/exception", "oversized declared frame: exception left onUpgradedData: " + ep.what);
+      return;
+    }
+    if (largest > 4 * (M + slack) + 65536)
+    {
+      c.fail("C18/server/over-allocation", pbt::Fmt() << "a single allocation of " << largest << " bytes with maxFrameSize " << M);
+      return;
+    }
+    if (!ep.deactivated())
+      c.fail("C18/server/oversized-frame-buffered", pbt::Fmt() << "frame declaring " << L << " bytes with maxFrameSize " << M << ": after " << toFeed
+                                                                << " payload bytes the session is still active (no close sent, no TCP close requested) - the "
+                                                                   "server keeps buffering until the whole declared frame has arrived");
+    return;
+  }
+  case 2:
+  {
+    // ---- illegal control frame (extended length or FIN clear), then valid traffic
+    bool server = !clientReachable() || src.coin();
+    if (server ? knownCtlS : knownCtlC)
+    {
+      c.label("excluded by known finding: invalid control frame");
+      return;
+    }
+    std::uint8_t opcode = src.oneOf<std::uint8_t>({refws::OpClose, refws::OpPing, refws::OpPong});
+    std::uint8_t key[4] = {1, 2, 3, 4};
+    std::string bad;
+    std::string shape;
+    switch (src.weighted({3, 2, 3}))
+    {
+    case 0:
+    {
+      std::size_t n = static_cast<std::size_t>(src.range(126, 400));
+      bad = refws::rawHeader(true, 0, opcode, server, key, 126, n) + std::string(n, 'p');
+      shape = "length code 126 (" + std::to_string(n) + " bytes)";
+      break;
+    }
+    case 1:
+    {
+      std::size_t n = static_cast<std::size_t>(src.range(0, 200));
+      bad = refws::rawHeader(true, 0, opcode, server, key, 127, n) + std::string(n, 'p');
+      shape = "length code 127 (" + std::to_string(n) + " bytes)";
+      break;
+    }
+    default:
+    {
+      std::size_t n = static_cast<std::size_t>(src.range(0, 125));
+      bad = refws::rawHeader(false, 0, opcode, server, key, static_cast<int>(n), n) + std::string(n, 'p');
+      shape = "FIN clear (" + std::to_string(n) + " bytes)";
+      break;
+    }
+    }
+    std::vector<Msg> follow;
+    std::string after = followUp(server, 70000, follow);
+    c.describe(pbt::Fmt() << (server ? "server" : "client") << " <- " << refws::opName(opcode) << " frame with " << shape << " then " << follow.size() << " valid text messages");
+    c.label(std::string(server ? "server" : "client") + ": illegal control frame");
+    c.nontrivial(pbt::hash64(bad));
+    HostileEndpoint ep(server);
+    // a valid message first: the session works
+    std::vector<Msg> pre;
+    std::string before = followUp(server, 1, pre);
+    ep.feed(before);
+    if (!ep.threw && ep.o.msgs != pre)
+    {
+      c.fail("C18/" + ep.side + "/messages-differ", "a single valid text message was not delivered");
+      return;
+    }
+    ep.o.msgs.clear();
+    ep.feed(bad);
+    std::size_t at = 0;
+    while (at < after.size() && !ep.threw)
+    {
+      std::size_t n = std::min<std::size_t>(after.size() - at, static_cast<std::size_t>(src.range(1, 8192)));
+      ep.feed(std::string_view(after).substr(at, n));
+      at += n;
+    }
+    judgeNoStall(c, ep, follow, "invalid-control-frame-stalls", std::string(refws::opName(opcode)) + " frame with " + shape);
+    return;
+  }
+  case 3:
+  {
+    // ---- 64-bit length with the most significant bit set (illegal), a few bytes, then valid traffic
+    bool server = !clientReachable() || src.coin();
+    std::uint64_t L = drawHugeLength(src, true);
+    std::uint8_t key[4] = {9, 8, 7, 6};
+    std::uint8_t opcode = src.oneOf<std::uint8_t>({refws::OpText, refws::OpBinary, refws::OpCont});
+    std::string bad = refws::rawHeader(src.coin(), 0, opcode, server, key, 127, L) + payloadBytes(src, static_cast<std::size_t>(src.range(0, 64)));
+    std::vector<Msg> follow;
+    std::string after = followUp(server, 70000, follow);
+    c.describe(pbt::Fmt() << (server ? "server" : "client") << " <- " << refws::opName(opcode) << " header declaring " << L << " bytes (" << pbt::hex(bad, 14) << "...) then "
+                          << follow.size() << " valid text messages");
+    c.label(std::string(server ? "server" : "client") + ": declared length >= 2^63");
+    c.nontrivial(pbt::hashMix(L, server));
+    HostileEndpoint ep(server);
+    std::size_t largest = 0;
+    {
+      AllocScope as;
+      // the header itself in one or two reads
+      std::size_t cut = static_cast<std::size_t>(src.range(0, static_cast<std::int64_t>(bad.size())));
+      ep.feed(std::string_view(bad).substr(0, cut));
+      ep.feed(std::string_view(bad).substr(cut));
+      largest = as.largest();
+    }
+    if (ep.threw)
+    {
+      c.fail("C18/" + ep.side + "/exception", pbt::Fmt() << "header declaring " << L << " bytes: exception left the data path: " << ep.what);
+      return;
+    }
+    if (largest > (1u << 20))
+    {
+      c.fail("C18/" + ep.side + "/over-allocation", pbt::Fmt() << "a single allocation of " << largest << " bytes for a " << bad.size() << "-byte input");
+      return;
+    }
+    if (server ? knownLenS : knownLenC)
+    {
+      c.label("stall check excluded by known finding: invalid length");
+      return;
+    }
+    std::size_t at = 0;
+    while (at < after.size() && !ep.threw)
+    {
+      std::size_t n = std::min<std::size_t>(after.size() - at, static_cast<std::size_t>(src.range(1, 8192)));
+      ep.feed(std::string_view(after).substr(at, n));
+      at += n;
+    }
+    judgeNoStall(c, ep, follow, "invalid-length-stalls", pbt::Fmt() << "header declaring " << L << " bytes");
+    return;
+  }
+  case 4:
+  {
+    // ---- server: fragments that add up to more than the maximum
+    const std::size_t M = src.oneOf<std::size_t>({16, 125, 1000, 4096});
+    const std::size_t frag = static_cast<std::size_t>(src.range(1, static_cast<std::int64_t>(M)));
+    const std::size_t slack = 16384;
+    c.describe(pbt::Fmt() << "server maxFrameSize=" << M << " <- endless fragments of " << frag << " bytes");
+    c.label("server: accumulated fragments beyond the maximum");
+    c.nontrivial(pbt::hashMix(M, frag));
+    HostileEndpoint ep(true, M);
+    std::size_t total = 0;
+    bool first = true;
+    while (total <= M + slack && !ep.threw && !ep.deactivated())
+    {
+      refws::Frame f;
+      f.opcode = first ? refws::OpBinary : refws::OpCont;
+      f.fin = false;
+      f.masked = true;
+      f.key[0] = 7, f.key[1] = 0, f.key[2] = static_cast<std::uint8_t>(total), f.key[3] = 1;
+      f.payload.assign(frag, 'F');
+      ep.feed(refws::encode(f));
+      first = false;
+      total += frag;
+    }
+    if (ep.threw)
+    {
+      c.fail("C18/server/exception", "accumulating fragments: " + ep.what);
+      return;
+    }
+    if (!ep.deactivated())
+      c.fail("C18/server/fragments-unbounded", pbt::Fmt() << total << " bytes of fragments accumulated with maxFrameSize " << M << " and the session is still active");
+    else if (!ep.o.msgs.empty())
+      c.fail("C18/server/messages-extra", "an unfinished fragmented message was delivered");
+    return;
+  }
+  default:
+  {
+    // ---- mutated valid stream under a random segmentation: no exception, bounded allocation
+    bool server = !clientReachable() || src.coin();
+    c18::GenOpts go;
+    go.masked = server;
+    go.allowBig = false;
+    Stream s = c18::genStream(src, go);
+    std::string wire = s.wire;
+    auto muts = src.rows(5, 3, 0, 1 << 16);
+    for (auto &m : muts)
+    {
+      if (wire.empty()) break;
+      // prefer positions inside frame headers
+      std::size_t pos;
+      if (m[0] % 3 != 0 && !s.starts.empty())
+        pos = std::min(wire.size() - 1, s.starts[static_cast<std::size_t>(m[1]) % s.starts.size()] + static_cast<std::size_t>(m[2] % 14));
+      else
+        pos = static_cast<std::size_t>(m[1]) % wire.size();
+      static const unsigned char interesting[] = {0x00, 0x7D, 0x7E, 0x7F, 0x80, 0xFD, 0xFE, 0xFF, 0x81, 0x88, 0x89, 0x8A, 0x08, 0x09, 0x01, 0x70};
+      unsigned char v = interesting[static_cast<std::size_t>(m[2]) % sizeof interesting];
+      switch (m[0] % 5)
+      {
+      case 0: wire[pos] = static_cast<char>(v); break;
+      case 1: wire[pos] = static_cast<char>(wire[pos] ^ (1u << (m[2] % 8))); break;
+      case 2: wire.insert(pos, 1, static_cast<char>(v)); break;
+      case 3: wire.erase(pos, 1); break;
+      default: wire.insert(pos, std::string(8, static_cast<char>(0xFF))); break;
+      }
+    }
+    auto cuts = c18::multiCut(src, wire.size(), 10);
+    c.describe(pbt::Fmt() << (server ? "server" : "client") << " <- mutated stream " << pbt::hex(wire, 80) << " (" << wire.size() << " bytes) " << showCuts(cuts));
+    c.label(std::string(server ? "server" : "client") + ": mutated stream");
+    if (!muts.empty()) c.nontrivial(pbt::hash64(wire));
+    HostileEndpoint ep(server);
+    std::size_t largest = 0;
+    {
+      AllocScope as;
+      std::size_t from = 0;
+      for (std::size_t k = 0; k <= cuts.size(); ++k)
+      {
+        std::size_t to = k < cuts.size() ? cuts[k] : wire.size();
+        ep.feed(std::string_view(wire).substr(from, to - from));
+        from = to;
+      }
+      largest = as.largest();
+    }
+    if (ep.threw)
+    {
+      c.fail("C18/" + ep.side + "/exception", "mutated stream: exception left the data path: " + ep.what);
+      return;
+    }
+    if (largest > 4 * wire.size() + 65536)
+      c.fail("C18/" + ep.side + "/over-allocation", pbt::Fmt() << "a single allocation of " << largest << " bytes while processing " << wire.size() << " bytes");
+    return;
+  }
+  }
+}
+
+
+// =======================================================================================
+// fixed regression cases (replays/C18/*.json)
+// =======================================================================================
+namespace
+{
+bool parseNoThrow(pbt::Case &c, const std::string &input, const std::string &what)
+{
+  ExactBuf buf(input);
+  std::size_t consumed = 99;
+  try
+  {
+    auto fr = ws::WebSocketFrame::parse(buf.view(), consumed);
+    if (fr)
+    {
+      c.fail("C18/frame/prefix-complete", what + ": parse returned a frame for a header without its payload");
+      return false;
+    }
+    if (consumed != 0)
+    {
+      c.fail("C18/frame/prefix-consumed", what + ": consumed != 0");
+      return false;
+    }
+  }
+  catch (const std::exception &e)
+  {
+    c.fail("C18/frame/parse-exception", what + ": parse threw " + typeid(e).name() + " (" + e.what() + ")");
+    return false;
+  }
+  return true;
+}
+
+void stallCase(pbt::Case &c, bool server, const std::string &bad, const std::string &sigTail, const std::string &what)
+{
+  if (!server && !clientReachable())
+  {
+    c.label("hook H3 not applied");
+    return;
+  }
+  std::vector<Msg> follow;
+  std::string after = followUp(server, 70000, follow);
+  c.describe(std::string(server ? "server" : "client") + " <- " + what + " (" + pbt::hex(bad, 16) + ") then " + std::to_string(follow.size()) + " valid text messages");
+  HostileEndpoint ep(server);
+  ep.feed(bad);
+  for (std::size_t at = 0; at < after.size() && !ep.threw; at += 4096) ep.feed(std::string_view(after).substr(at, 4096));
+  judgeNoStall(c, ep, follow, sigTail, what);
+}
+} // namespace
+
+// the classic non-trivial case of the property: fragmented text, ping between the fragments,
+// every single cut (including the ones inside the 16-bit length header), both endpoints
+PBT_REGRESSION(fragmented_text_with_ping_all_cuts)
+{
+  for (int side = 0; side < 2; ++side)
+  {
+    const bool server = side == 0;
+    if (!server && !clientReachable()) continue;
+    Stream s;
+    auto mk = [&](std::uint8_t op, bool fin, const std::string &pl)
+    {
+      refws::Frame f;
+      f.opcode = op;
+      f.fin = fin;
+      f.payload = pl;
+      f.masked = server;
+      if (server) f.key[0] = 0xA1, f.key[1] = 0xB2, f.key[2] = 0xC3, f.key[3] = 0xD4;
+      s.add(f);
+    };
+    std::string text = "gr\xc3\xbc\xc3\x9f" + std::string(130, 'x') + "\xe2\x82\xac\xf0\x9f\x98\x80"; // 143 bytes
+    mk(refws::OpText, false, text.substr(0, 3)); // cuts the two-byte sequence of U+00FC in half
+    mk(refws::OpPing, true, "hb");
+    mk(refws::OpCont, false, text.substr(3, 130));
+    mk(refws::OpCont, true, text.substr(133));
+    mk(refws::OpBinary, true, std::string("\x00\xff\x80", 3));
+    s.expect = {Msg{true, text}, Msg{false, std::string("\x00\xff\x80", 3)}};
+    c.describe(s.describe());
+    for (std::size_t cut = 1; cut < s.wire.size(); ++cut)
+    {
+      Outcome o = server ? runServer(s.wire, {cut}) :
+#ifdef JOEGEN_IORA_VERIF_WS_CLIENT_PROBE
+                         runClient(s.wire, {cut});
+#else
+                         Outcome{};
+#endif
+      if (!judge(c, server ? "server" : "client", s, o, "single cut at byte " + std::to_string(cut))) return;
+    }
+  }
+}
+
+PBT_REGRESSION(parse_all_ones_length)
+{
+  // 10-byte header, length 2^64-1: "pos + payloadLen" wraps to 9 <= size  (S18, fix C18-3)
+  std::string in = std::string("\x82\x7f", 2) + std::string(8, '\xff');
+  c.describe("parse(" + pbt::hex(in) + ")");
+  parseNoThrow(c, in, "binary header declaring 2^64-1 bytes");
+}
+
+PBT_REGRESSION(parse_wrapping_length_masked)
+{
+  // masked: header is 14 bytes, 14 + (2^64-14) == 0
+  std::string in = std::string("\x81\xff", 2) + std::string(7, '\xff') + std::string("\xf2", 1) + std::string("\x01\x02\x03\x04", 4) + "abc";
+  c.describe("parse(" + pbt::hex(in) + ")");
+  parseNoThrow(c, in, "masked text header declaring 2^64-14 bytes");
+}
+
+PBT_REGRESSION(server_all_ones_length)
+{
+  std::string bad = std::string("\x82\xff", 2) + std::string(8, '\xff') + std::string("\x01\x02\x03\x04", 4);
+  c.describe("server <- " + pbt::hex(bad));
+  HostileEndpoint ep(true);
+  ep.feed(bad);
+  if (ep.threw) c.fail("C18/server/exception", "header declaring 2^64-1 bytes: exception left onUpgradedData: " + ep.what);
+}
+
+PBT_REGRESSION(client_all_ones_length)
+{
+  if (!clientReachable()) return;
+  std::string bad = std::string("\x82\x7f", 2) + std::string(8, '\xff');
+  c.describe("client <- " + pbt::hex(bad));
+  HostileEndpoint ep(false);
+  ep.feed(bad);
+  if (ep.threw) c.fail("C18/client/exception", "header declaring 2^64-1 bytes: exception left handleData: " + ep.what);
+}
+
+PBT_REGRESSION(client_invalid_utf8_text)
+{
+#ifdef JOEGEN_IORA_VERIF_WS_CLIENT_PROBE
+  // a lone lead byte / an overlong slash / a surrogate, whole and fragmented  (fix C18-1)
+  for (std::string bad : {std::string("\xc3"), std::string("ok\xc0\xaf"), std::string("\xed\xa0\x80"), std::string("a\xff" "b")})
+  {
+    Stream s;
+    refws::Frame f1, f2;
+    f1.opcode = refws::OpText;
+    f1.fin = false;
+    f1.payload = bad.substr(0, 1);
+    f2.opcode = refws::OpCont;
+    f2.fin = true;
+    f2.payload = bad.substr(1);
+    s.add(f1);
+    s.add(f2);
+    s.hasInvalidText = true;
+    s.invalidPayload = bad;
+    c.describe("client <- " + s.describe());
+    if (!judge(c, "client", s, runClient(s.wire, {}), "whole stream in one read")) return;
+    if (!judge(c, "client", s, runClient(s.wire, {3}), "single cut at byte 3")) return;
+  }
+#endif
+}
+
+PBT_REGRESSION(server_invalid_utf8_text)
+{
+  Stream s;
+  refws::Frame f;
+  f.opcode = refws::OpText;
+  f.masked = true;
+  f.key[0] = 1, f.key[1] = 2, f.key[2] = 3, f.key[3] = 4;
+  f.payload = "caf\xe9"; // Latin-1, not UTF-8
+  s.add(f);
+  s.hasInvalidText = true;
+  s.invalidPayload = f.payload;
+  c.describe("server <- " + s.describe());
+  judge(c, "server", s, runServer(s.wire, {}), "whole stream in one read");
+}
+
+PBT_REGRESSION(client_data_after_close)
+{
+  // sendClose() then sendText(): the text frame must not reach the wire  (S18, fix C18-2)
+  pbt::watchdog(120, "C18/client/loopback-stalled");
+  ClientUnderTest cut;
+  std::string why;
+  bool harnessSide = false;
+  if (!cut.start(why, harnessSide))
+  {
+    if (harnessSide) c.inconclusive(why);
+    else c.fail("C18/client/handshake", why);
+    return;
+  }
+  c.describe("client: sendText(\"before\"); sendClose(1000); sendText(\"after\"); sendBinary({1,2,3})");
+  cut.cl->sendText("before");
+  cut.cl->sendClose(1000, "bye");
+  cut.cl->sendText("after");
+  cut.cl->sendBinary({1, 2, 3});
+  cut.conn.readUntil([&] { return wireHasClose(cut.conn.rx); }, 30.0);
+  cut.cl->disconnect();
+  cut.conn.readUntil([&] { return cut.conn.eof; }, 30.0);
+  std::vector<AppSend> sends = {{'t', "before", true}, {'c', "", true}, {'t', "after", false}, {'b', std::string("\x01\x02\x03", 3), false}};
+  judgeWire(c, "client", cut.conn.rx, cut.conn.eof, {}, {}, sends, "", true);
+}
+
+PBT_REGRESSION(server_data_after_close)
+{
+  pbt::watchdog(120, "C18/server/loopback-stalled");
+  std::string why;
+  LoopServer *srv = loopServer(why);
+  if (!srv)
+  {
+    c.inconclusive("could not start a WebSocketServer: " + why);
+    return;
+  }
+  c18net::RawConn conn;
+  conn.fd = c18net::connectLoopback(srv->port);
+  if (conn.fd < 0 || !c18net::clientHandshake(conn, "dGhlIHNhbXBsZSBub25jZQ==", why))
+  {
+    c.fail("C18/server/handshake", why);
+    return;
+  }
+  ws::SessionId sid;
+  {
+    std::lock_guard<std::mutex> g(srv->log.m);
+    sid = srv->log.sid;
+  }
+  c.describe("server: sendText(\"before\"); sendClose(1000); sendText(\"after\"); sendBinary({1,2,3})");
+  srv->sendText(sid, "before");
+  srv->sendClose(sid, 1000, "bye");
+  srv->sendText(sid, "after");
+  srv->sendBinary(sid, {1, 2, 3});
+  conn.readUntil([&] { return wireHasClose(conn.rx); }, 30.0);
+  conn.shutdownWrite();
+  conn.readUntil([&] { return conn.eof; }, 30.0);
+  std::vector<AppSend> sends = {{'t', "before", true}, {'c', "", true}, {'t', "after", false}, {'b', std::string("\x01\x02\x03", 3), false}};
+  judgeWire(c, "server", conn.rx, conn.eof, {}, {}, sends, "", false);
+}
+
+PBT_REGRESSION(server_ping_length_code_126)
+{
+  // a ping that uses the 16-bit length form: illegal, and reported as "incomplete" forever  (S18, fix C18-4)
+  std::uint8_t key[4] = {1, 2, 3, 4};
+  stallCase(c, true, refws::rawHeader(true, 0, refws::OpPing, true, key, 126, 126) + std::string(126, 'p'), "invalid-control-frame-stalls",
+            "PING frame with length code 126");
+}
+PBT_REGRESSION(client_ping_length_code_126)
+{
+  std::uint8_t key[4] = {0, 0, 0, 0};
+  stallCase(c, false, refws::rawHeader(true, 0, refws::OpPing, false, key, 126, 126) + std::string(126, 'p'), "invalid-control-frame-stalls",
+            "PING frame with length code 126");
+}
+PBT_REGRESSION(server_fragmented_close)
+{
+  std::uint8_t key[4] = {1, 2, 3, 4};
+  stallCase(c, true, refws::rawHeader(false, 0, refws::OpClose, true, key, 2, 2) + std::string("\x02\xea", 2), "invalid-control-frame-stalls",
+            "CLOSE frame with FIN clear");
+}
+PBT_REGRESSION(server_length_msb_set)
+{
+  std::uint8_t key[4] = {1, 2, 3, 4};
+  stallCase(c, true, refws::rawHeader(true, 0, refws::OpBinary, true, key, 127, 1ULL << 63) + "xyz", "invalid-length-stalls", "BIN header declaring 2^63 bytes");
+}
+PBT_REGRESSION(client_length_msb_set)
+{
+  std::uint8_t key[4] = {0, 0, 0, 0};
+  stallCase(c, false, refws::rawHeader(true, 0, refws::OpText, false, key, 127, ~0ULL - 11) + "xyz", "invalid-length-stalls", "TEXT header declaring 2^64-12 bytes");
+}
+
+PBT_REGRESSION(server_oversized_declared_frame)
+{
+  // maxFrameSize 1000, header declares 4 GiB: the server must give up, not buffer  (S18, fix C18-4)
+  const std::size_t M = 1000;
+  std::uint8_t key[4] = {5, 6, 7, 8};
+  std::string hdr = refws::rawHeader(true, 0, refws::OpBinary, true, key, 127, 1ULL << 32);
+  c.describe("server maxFrameSize=1000 <- BIN header declaring 2^32 bytes, then 20000 payload bytes");
+  HostileEndpoint ep(true, M);
+  ep.feed(hdr);
+  for (int i = 0; i < 20 && !ep.threw; ++i) ep.feed(std::string(1000, 'A'));
+  if (ep.threw) c.fail("C18/server/exception", ep.what);
+  else if (!ep.deactivated())
+    c.fail("C18/server/oversized-frame-buffered", "frame declaring 4294967296 bytes with maxFrameSize 1000: after 20000 payload bytes the session is still active");
+}
+
+PBT_REGRESSION(client_oversized_declared_frame)
+{
+  if (!clientReachable()) return;
+  hostileClientOversized(c, 1ULL << 62, 4096);
 }
 
 PBT_MAIN()
